@@ -2,7 +2,7 @@
    after any sequence of products / scalar multiples has as matrix the same sequence of matrix operations
    applied to the starting matrix (rejected steps change nothing); assignments replace exactly the addressed
    letters and keep the coefficient; the length of the mask is invariant; linear PauliSum histories. *)
-From Coq Require Import List ZArith Bool Ring Lia Arith.
+From Coq Require Import List ZArith Bool Ring Lia Arith Sorted.
 From VF Require Import Base.RingOps Base.Mat Cliff.Pauli Cliff.PauliProofs Cliff.PauliHist.
 Import ListNotations.
 Close Scope Z_scope.
@@ -159,3 +159,81 @@ Section HistProofs.
     induction l as [|s l IH]; intros a; [reflexivity|]. cbn [psum_trace psum_final]. cbv zeta. rewrite last_cons. apply IH.
   Qed.
 End HistProofs.
+
+(* The default register of a sum (psum_support): strictly increasing, exactly the qubits of the terms, wide enough for
+   every term; hence the in-place product of two sums, taken on the qubits of BOTH operands (the qubits a sum has to report
+   after `s *= t` are among them, whatever it reported before), has as matrix the product of the matrices. *)
+Section Support.
+  Context {K : Type} (O : Ops K) (L : PLaws O).
+
+  Lemma qins_in q l y : In y (qins q l) <-> y = q \/ In y l.
+  Proof.
+    induction l as [|x r IH]; simpl.
+    - split; intros [H|H]; auto; contradiction.
+    - destruct (Z.ltb_spec q x) as [Hlt|Hge].
+      + simpl. split; intros H; destruct H as [H|H]; auto.
+      + destruct (Z.eqb_spec q x) as [Heq|Hne].
+        * subst x. simpl. split; intros H; [right; exact H|]. destruct H as [H|H]; [left; auto|exact H].
+        * simpl. rewrite IH. split; intros H.
+          -- destruct H as [H|[H|H]]; auto.
+          -- destruct H as [H|[H|H]]; auto.
+  Qed.
+  Lemma qins_hdrel a q l : (a < q)%Z -> HdRel Z.lt a l -> HdRel Z.lt a (qins q l).
+  Proof.
+    intros Haq H. destruct l as [|x r]; simpl; [constructor; exact Haq|].
+    inversion H; subst. destruct (Z.ltb_spec q x); [constructor; exact Haq|].
+    destruct (Z.eqb_spec q x); constructor; assumption.
+  Qed.
+  Lemma qins_sorted q l : Sorted Z.lt l -> Sorted Z.lt (qins q l).
+  Proof.
+    induction 1 as [|x r Hs IH Hd]; simpl; [repeat constructor|].
+    destruct (Z.ltb_spec q x) as [Hlt|Hge].
+    - constructor; [constructor; assumption|constructor; exact Hlt].
+    - destruct (Z.eqb_spec q x) as [Heq|Hne]; [constructor; assumption|].
+      constructor; [exact IH|apply qins_hdrel; [lia|exact Hd]].
+  Qed.
+  Lemma fold_qins_in l : forall acc y, In y (fold_right qins acc l) <-> In y l \/ In y acc.
+  Proof.
+    induction l as [|x r IH]; intros acc y; simpl.
+    - split; [auto|intros [[]|H]; exact H].
+    - rewrite qins_in, IH. split; intros H.
+      + destruct H as [H|[H|H]]; auto.
+      + destruct H as [[H|H]|H]; auto.
+  Qed.
+  Lemma fold_qins_sorted l : forall acc, Sorted Z.lt acc -> Sorted Z.lt (fold_right qins acc l).
+  Proof. induction l as [|x r IH]; intros acc H; simpl; [exact H|]. apply qins_sorted, IH, H. Qed.
+
+  Theorem psum_support_sorted (s : psum (K:=K)) : Sorted Z.lt (psum_support s).
+  Proof. induction s as [|e r IH]; simpl; [constructor|]. apply fold_qins_sorted, IH. Qed.
+  Lemma sorted_lt_nodup l : Sorted Z.lt l -> NoDup l.
+  Proof.
+    intros H. apply Sorted_StronglySorted in H; [|intros x y z; apply Z.lt_trans].
+    induction H as [|a l Hs IH Hf]; constructor; [|exact IH].
+    intros Hin. rewrite Forall_forall in Hf. specialize (Hf a Hin). lia.
+  Qed.
+  Theorem psum_support_nodup (s : psum (K:=K)) : NoDup (psum_support s).
+  Proof. apply sorted_lt_nodup, psum_support_sorted. Qed.
+  Theorem psum_support_in (s : psum (K:=K)) q :
+    In q (psum_support s) <-> exists e, In e s /\ In q (pm_keys (fst e)).
+  Proof.
+    induction s as [|e r IH]; simpl.
+    - split; [contradiction|intros [e [[] _]]].
+    - rewrite fold_qins_in, IH. split; intros H.
+      + destruct H as [H|[e' [He Hq]]]; [exists e; auto|exists e'; auto].
+      + destruct H as [e' [[He|He] Hq]]; [subst e'; auto|right; exists e'; auto].
+  Qed.
+  Theorem psum_support_ok (s : psum (K:=K)) :
+    Forall (fun e => NoDup (pm_keys (fst e))) s -> psum_ok (psum_support s) s.
+  Proof.
+    unfold psum_ok. rewrite !Forall_forall. intros H e He. split; [apply H, He|].
+    intros q Hq. apply psum_support_in. exists e. auto.
+  Qed.
+  Theorem psum_mul_on_support (a b : psum (K:=K)) :
+    Forall (fun e => NoDup (pm_keys (fst e))) (a ++ b) ->
+    psum_matrix O (psum_support (a ++ b)) (psum_mul O a b)
+    = mmul O (psum_matrix O (psum_support (a ++ b)) a) (psum_matrix O (psum_support (a ++ b)) b).
+  Proof.
+    intros H. apply psum_support_ok in H. unfold psum_ok in H. apply Forall_app in H. destruct H as [Ha Hb].
+    apply (psum_mul_sound O L); [apply psum_support_nodup|exact Ha|exact Hb].
+  Qed.
+End Support.
